@@ -23,11 +23,13 @@ pub struct Case {
     pub perm: Vec<usize>,
     pub gaps: Vec<u8>,
     pub fill_byte: u8,
+    /// the length field of every index entry also covers the filler stored behind its record
+    pub stretch: bool,
 }
 
 impl Case {
     pub fn to_json(&self) -> Value {
-        json!({"ty": self.ty.name(), "n": self.n, "perm": self.perm, "gaps": self.gaps, "fill_byte": self.fill_byte})
+        json!({"ty": self.ty.name(), "n": self.n, "perm": self.perm, "gaps": self.gaps, "fill_byte": self.fill_byte, "index_lengths_cover_fillers": self.stretch})
     }
     pub fn from_json(v: &Value) -> Option<Case> {
         let arr = |k: &str| -> Option<Vec<u64>> { v.get(k)?.as_array()?.iter().map(|x| x.as_u64()).collect() };
@@ -37,6 +39,7 @@ impl Case {
             perm: arr("perm")?.into_iter().map(|x| x as usize).collect(),
             gaps: arr("gaps")?.into_iter().map(|x| x as u8).collect(),
             fill_byte: v.get("fill_byte")?.as_u64()? as u8,
+            stretch: v.get("index_lengths_cover_fillers").and_then(|x| x.as_bool()).unwrap_or(false),
         })
     }
     fn hash(&self) -> u64 {
@@ -151,7 +154,7 @@ pub fn build_m(case: &Case, with_m: bool) -> (Vec<u8>, Vec<u8>, Vec<MRecord>) {
         body.extend(filler(case.gaps[j]));
         let r = encode_record(&recs[case.perm[j]]);
         offsets[case.perm[j]] = 100 + body.len();
-        lens[case.perm[j]] = r.len() - 8;
+        lens[case.perm[j]] = r.len() - 8 + if case.stretch { filler(case.gaps[j + 1]).len() / 2 * 2 } else { 0 };
         body.extend(r);
     }
     body.extend(filler(case.gaps[case.n]));
@@ -175,6 +178,8 @@ pub struct Obs {
     pub as_other: Vec<Result<(), String>>,
     /// (state the reader was brought into: 0 fresh, 1 after one next(), 2 after seek(1); program; what its calls returned)
     pub progs: Vec<(u8, Prog, crate::iterprog::Out<Result<MRead, String>>)>,
+    /// per k: a fresh reader, read_nth_shape(k), then the iteration from the start
+    pub after_nth: Vec<Vec<Result<MRead, String>>>,
 }
 
 pub fn observe(case: &Case, shp: &[u8], shx: &[u8]) -> Result<Obs, String> {
@@ -235,7 +240,13 @@ pub fn observe_chunked(case: &Case, shp: &[u8], shx: &[u8], chunk: usize) -> Res
         let v: Vec<Result<(), String>> = r4.iter_shapes_as::<S>().take(case.n + 3).map(|x| x.map(|_| ()).map_err(|e| err_kind(&e))).collect();
         v
     }, unreachable!());
-    Ok(Obs { count, iter, ended, nth, progs, as_other })
+    let mut after_nth = vec![];
+    for k in 0..case.n {
+        let mut r5 = ShapeReader::with_shx(dev(shp), dev(shx)).map_err(|e| err_kind(&e))?;
+        let _ = r5.read_nth_shape(k);
+        after_nth.push(r5.iter_shapes().take(case.n + 3).map(|x| x.map(|s| from_lib(&s)).map_err(|e| err_kind(&e))).collect());
+    }
+    Ok(Obs { count, iter, ended, nth, progs, as_other, after_nth })
 }
 
 /// The by-path routes (`read_shapes`, `read_shapes_as`, `ShapeReader::from_path`): the .shx next to the
@@ -360,6 +371,20 @@ pub fn judge(case: &Case, recs: &[MRecord], o: &Result<Obs, String>) -> Vec<(Str
             out.push((format!("typed-iteration-as-another-type[{}]", tag), format!("iter_shapes_as::<{}>() over {} index entries of type {} yielded {:?}; every entry is a type mismatch and nothing else", other.name(), case.n, case.ty.name(), o.as_other)));
         }
     }
+    for (k, items) in o.after_nth.iter().enumerate() {
+        let ok = items.len() == case.n && items.iter().enumerate().all(|(i, x)| matches!(x, Ok(got) if super::c03::cmp_record(&recs[i], got).is_none()));
+        if !ok {
+            let shown: Vec<String> = items.iter().map(|a| match a {
+                Err(e) => format!("Err({})", e),
+                Ok(got) => match recs.iter().position(|r| super::c03::cmp_record(r, got).is_none()) {
+                    Some(k) => format!("entry {}", k),
+                    None => "a shape no entry addresses".to_string(),
+                },
+            }).collect();
+            out.push((format!("iteration-after-random-access[{}]", tag), format!("read_nth_shape({}) on a fresh reader, then an iteration: {:?} for {} entries", k, shown, case.n)));
+            break;
+        }
+    }
     for (pre, p, o) in &o.progs {
         let start = if *pre == 0 { 0 } else { 1 };
         let (want, _) = iterprog::reference(start, case.n, *p, case.n + 3);
@@ -467,7 +492,7 @@ fn run_case(case: &Case, ctx: &mut Ctx) {
 }
 
 fn selftest() -> (u64, u64) {
-    let case = Case { ty: Ty::PolylineM, n: 3, perm: vec![0, 1, 2], gaps: vec![1, 0, 4, 2], fill_byte: 0xff };
+    let case = Case { ty: Ty::PolylineM, n: 3, perm: vec![0, 1, 2], gaps: vec![1, 0, 4, 2], fill_byte: 0xff, stretch: false };
     let (shp, shx, recs) = build(&case);
     let fresh = || observe(&case, &shp, &shx);
     if !judge(&case, &recs, &fresh()).is_empty() {
@@ -573,7 +598,10 @@ pub fn check(tier: Tier) -> i32 {
                 } {
                     let has_bytes = gaps.iter().any(|g| (1..=3).contains(g));
                     for fill_byte in if has_bytes { vec![0x00u8, 0xff] } else { vec![0x00u8] } {
-                        cases.push(Case { ty: *ty, n, perm: perm.clone(), gaps: gaps.clone(), fill_byte });
+                        cases.push(Case { ty: *ty, n, perm: perm.clone(), gaps: gaps.clone(), fill_byte, stretch: false });
+                        if gaps.iter().skip(1).any(|g| *g != 0) {
+                            cases.push(Case { ty: *ty, n, perm: perm.clone(), gaps: gaps.clone(), fill_byte, stretch: true });
+                        }
                     }
                 }
             }
@@ -622,7 +650,7 @@ pub fn check(tier: Tier) -> i32 {
             tier,
             level: "model_checking",
             engine: "E2 enumerator over RefCodec-built .shp/.shx pairs (all permutations x all filler combinations), read by the real ShapeReader::with_shx",
-            rule: "types x n records (n = 0 included: a header-only index over fillers) of pairwise different size x every permutation of physical order against index order x every combination of fillers {none, 2, 8, 14 bytes, a complete valid decoy record} before / between / after x filler byte {0x00, 0xff}; header length covers the whole file; every non-trivial case again through sources that return at most 1 resp. 7 bytes per read; a typed iteration as another type going from mismatch to mismatch (one per entry); the iterator also driven through 14 programs of std adaptors (nth, skip, step_by, last, count) from 3 reader states; cases with fillers in {none, 8 bytes, decoy} also as files on disk through read_shapes, read_shapes_as, ShapeReader::from_path; plus records at byte offsets beyond 2^31 and 3*2^30 on a sparse source (physical and permuted index order); non-trivial = some filler or physical order != index order",
+            rule: "types x n records (n = 0 included: a header-only index over fillers) of pairwise different size x every permutation of physical order against index order x every combination of fillers {none, 2, 8, 14 bytes, a complete valid decoy record} before / between / after x filler byte {0x00, 0xff}; header length covers the whole file; every case with a filler behind a record again with index length fields that cover that filler; a random access to every entry of a fresh reader followed by an iteration; every non-trivial case again through sources that return at most 1 resp. 7 bytes per read; a typed iteration as another type going from mismatch to mismatch (one per entry); the iterator also driven through 14 programs of std adaptors (nth, skip, step_by, last, count) from 3 reader states; cases with fillers in {none, 8 bytes, decoy} also as files on disk through read_shapes, read_shapes_as, ShapeReader::from_path; plus records at byte offsets beyond 2^31 and 3*2^30 on a sparse source (physical and permuted index order); non-trivial = some filler or physical order != index order",
             bounds: json!({"types": types.iter().map(|t| t.name()).collect::<Vec<_>>(), "n": ns, "gap_kinds": 5, "cases": cases.len()}),
             exhaustive: true,
             assumptions: vec!["fillers of odd length are impossible (offsets are in 16-bit words)".into()],
